@@ -1027,7 +1027,7 @@ func main() {
 	}
 
 	r := gen.NewRand(f.Seed)
-	n := f.N(8, 90)
+	n := f.N(5, 90)
 	t0 := time.Now()
 	if os.Getenv("C13_ONLY_SPECIAL") == "" {
 		for i := 0; i < n; i++ {
